@@ -11,8 +11,14 @@ YIELDS_COARSE = ["begin:after_meta", "commit:before_header"]
 CORPUS = {
     "C04": [("corpus: D10 (reader preempted between header read and registration)", ["r", "w", "w"], [0, 1, 1, 1, 2, 2, 0, 0, 0], YIELDS_COARSE),
             ("corpus: D10 fine-grained", ["r", "w", "w"], [0, 0] + [1] * 7 + [2] * 5 + [0] * 4, YIELDS_ORACLE)],
-    "C09": [],
+    "C04b": [],
+    "C09": [("corpus: reader between lock and header read while a writer remaps", ["W", "r"], [1] + [0] * 5 + [1] * 3 + [0] * 8, None),
+            ("corpus: writer queued behind an open writer", ["w", "w", "r"], [0, 0, 1, 1, 0, 0, 0, 0, 0, 0, 0, 0, 1, 1, 1], None)],
 }
+CORPUS["C04"].append(("corpus: two readers of one snapshot, one closes, two commits follow", ["r", "r", "w", "w"],
+                      [1, 1, 0, 0, 0, 0, 2, 2, 2, 3, 3, 3, 1, 1], YIELDS_COARSE))
+CORPUS["C04"].append(("corpus: two readers of different ages, the older stays", ["r", "w", "r", "w", "w"],
+                      [0, 0, 1, 1, 1, 2, 2, 3, 3, 3, 4, 4, 4, 0, 0, 2, 2], YIELDS_COARSE))
 # yield points the model can follow step by step (no parking inside the open_ro_txs critical section)
 YIELDS_MODEL = ["begin:after_lock", "begin:after_freelist", "begin:after_register", "resize:before_wlock", "resize:after_wlock",
                 "resize:after_remap", "commit:before_data", "commit:before_header", "commit:before_sync", "commit:before_publish",
@@ -28,7 +34,11 @@ def schedules(nthreads, max_steps, preemptions, rng, limit):
     """sequences: run thread a for k1 grants, then b for k2 grants, (then c for k3) ... then round-robin"""
     out = []
     ids = list(range(nthreads))
-    for order in itertools.permutations(ids, min(nthreads, preemptions + 1)):
+    orders = list(itertools.permutations(ids, min(nthreads, preemptions + 1)))
+    if preemptions + 1 > nthreads:
+        # more segments than threads: a thread may be resumed (a, b, a, c ...)
+        orders = [o for o in itertools.product(ids, repeat=preemptions + 1) if all(x != y for x, y in zip(o, o[1:]))]
+    for order in orders:
         for ks in itertools.product(range(0, max_steps + 1), repeat=len(order)):
             if ks[0] == 0:
                 continue
